@@ -148,7 +148,7 @@ def usable_ops(ops, backend, keyset, valset=None):
     """drop operations a configuration cannot express (keyword update needs str keys; cached objects have dict.copy)"""
     out = []
     for o in ops:
-        if o['op'] == 'updatekw' and keyset not in ('str', 'alias-dash', 'dash'):
+        if o['op'] == 'updatekw' and keyset not in ('str', 'alias-dash', 'dash', 'prefixy', 'prefixy-id'):
             o = dict(o, op='update')
         if o['op'] == 'copy' and backend.endswith('+cache'):
             continue
